@@ -201,6 +201,23 @@ func (c *Ctx) checkIntersect() {
 			continue
 		}
 		core.AllInstrs(fn, func(in ssa.Instruction) {
+			// a mode converted to a plain integer and masked with a run-time filter (the presence
+			// filters `int(mode) & FilterIn`) is a permission decision like a predicate call
+			if cv, isCv := in.(*ssa.Convert); isCv && isModeType(cv.X.Type()) {
+				masked := false
+				for _, ref := range *cv.Referrers() {
+					if b, isB := ref.(*ssa.BinOp); isB && b.Op == token.AND {
+						_, k1 := b.X.(*ssa.Const)
+						_, k2 := b.Y.(*ssa.Const)
+						masked = masked || (!k1 && !k2)
+					}
+				}
+				if masked {
+					r.Func(fk(fn))
+					lift(fn, cv.X, 0, c.pos(cv), "filter mask")
+				}
+				return
+			}
 			call, ok := in.(*ssa.Call)
 			if !ok {
 				return
